@@ -37,6 +37,133 @@ def c04_post(c):
     c["extra"]["profile_pairs_compared"] = pairs
 
 
+def digest_compare(c):
+    """debug vs release: digests logged under note keys dig|... must agree shard by shard."""
+    agg = c["agg"]
+    pairs = 0
+    for key, per_worker in agg.notes.items():
+        if not key.startswith("dig|"):
+            continue
+        vals = {}
+        for tag, v in per_worker.items():
+            vals.setdefault(tag.split("-")[0], set()).add(v)
+        if "debug" in vals and "release" in vals:
+            pairs += 1
+            if vals["debug"] != vals["release"]:
+                agg.add_violation(c["prop"], "%s|profile-dependent" % key.split("|")[1].rstrip("0123456789"),
+                                  "final-state digests differ between the debug and the release build (%s): %s vs %s" % (key, sorted(vals["debug"]), sorted(vals["release"])))
+    c["extra"]["profile_pairs_compared"] = pairs
+
+
+def c14_pre(c):
+    """thorough: build the harness under ThreadSanitizer, run the concurrent workload under it and under Miri."""
+    import os, subprocess, time
+    if c["tier"] != "thorough":
+        c["extra"]["sanitizers"] = "not run in the quick tier (TSan/Miri builds take minutes); see thorough"
+        return
+    H = os.path.join(c["root"], "harness")
+    env = dict(c["cargo_env"])
+    san = {}
+    # ---- ThreadSanitizer --------------------------------------------------------------------
+    t0 = time.time()
+    envt = dict(env, RUSTFLAGS="-Zsanitizer=thread", CARGO_TARGET_DIR=os.path.join(H, "target-tsan"))
+    p = subprocess.run(["cargo", "+nightly", "build", "--offline", "--release", "-Zbuild-std", "--target", "x86_64-unknown-linux-gnu"], cwd=H, env=envt,
+                       stdout=subprocess.PIPE, stderr=subprocess.STDOUT, text=True)
+    if p.returncode != 0:
+        c["agg"].inconclusive.append("TSan build failed: " + p.stdout[-400:])
+        san["tsan"] = "build failed"
+    else:
+        binp = os.path.join(H, "target-tsan", "x86_64-unknown-linux-gnu", "release", "pvmon")
+        reports = 0
+        runs = 0
+        for rep in range(3):
+            logf = os.path.join(c["wdir"], "tsan-%d.jsonl" % rep)
+            errf = os.path.join(c["wdir"], "tsan-%d.stderr" % rep)
+            with open(errf, "wb") as eh:
+                r = subprocess.run([binp, "C14", "--tier", "thorough", "--seed", str(c["seed"] + rep), "--mode", "tsan", "--log", logf, "--cap-mb", "4096"],
+                                   cwd=c["root"], env=dict(os.environ, TSAN_OPTIONS="halt_on_error=0 exitcode=66 second_deadlock_stack=1"), stdout=eh, stderr=eh, timeout=3000)
+            runs += 1
+            c["agg"].feed(logf, "tsan-%d" % rep)
+            txt = open(errf, "r", errors="replace").read()
+            n = txt.count("WARNING: ThreadSanitizer")
+            reports += n
+            if n or r.returncode == 66:
+                # signature: first frame inside pushr / the harness
+                frame = "?"
+                for line in txt.splitlines():
+                    if "#" in line and ("pushr::" in line or "pvmon::" in line):
+                        frame = line.split(" in ")[-1].split(" ")[0][:80]
+                        break
+                c["agg"].add_violation(c["prop"], "tsan|data-race|%s" % frame, "ThreadSanitizer reported %d problem(s): %s" % (n, txt[txt.find("WARNING: ThreadSanitizer"):][:1500]))
+            elif r.returncode != 0:
+                c["agg"].inconclusive.append("TSan run exited %d: %s" % (r.returncode, txt[-300:]))
+        san["tsan"] = {"runs": runs, "reports": reports, "build_s": round(time.time() - t0, 1)}
+    # ---- Miri -------------------------------------------------------------------------------
+    t0 = time.time()
+    seeds = 8
+    logf = os.path.join(c["wdir"], "miri.jsonl")
+    envm = dict(env, MIRIFLAGS="-Zmiri-disable-isolation -Zmiri-many-seeds=0..%d" % seeds, CARGO_TARGET_DIR=os.path.join(H, "target-miri"))
+    p = subprocess.run(["cargo", "+nightly", "miri", "run", "--offline", "--bin", "pvmon", "--", "C14", "--mode", "miri", "--seed", str(c["seed"]), "--log", logf, "--cap-mb", "4096"],
+                       cwd=H, env=envm, stdout=subprocess.PIPE, stderr=subprocess.STDOUT, text=True, timeout=3400)
+    c["agg"].feed(logf, "miri")
+    out = p.stdout
+    if "Undefined Behavior" in out or "data race" in out.lower():
+        c["agg"].add_violation(c["prop"], "miri|undefined-behaviour-or-race", out[out.find("error"):][:1500])
+        san["miri"] = {"seeds": seeds, "result": "reported a problem"}
+    elif p.returncode != 0:
+        c["agg"].inconclusive.append("miri run exited %d: %s" % (p.returncode, out[-500:]))
+        san["miri"] = {"seeds": seeds, "result": "did not complete (inconclusive)"}
+    else:
+        san["miri"] = {"seeds": seeds, "result": "clean", "wall_s": round(time.time() - t0, 1)}
+    c["extra"]["sanitizers"] = san
+
+
+def c14_post(c):
+    import json, os, subprocess
+    digest_compare(c)
+    agg = c["agg"]
+    # CLI front end vs library
+    cases = []
+    for key, per_worker in agg.notes.items():
+        if key.startswith("cli|"):
+            for tag, v in per_worker.items():
+                if tag.startswith("release"):
+                    cases.append(json.loads(v))
+    if not cases:
+        return
+    tdir = os.path.join(c["root"], "harness", "target", "cli")
+    p = subprocess.run(["cargo", "build", "--offline", "--quiet", "--manifest-path", "/repo/Cargo.toml", "--bin", "pushr", "--target-dir", tdir],
+                       env=dict(os.environ, CARGO_NET_OFFLINE="true"), stdout=subprocess.PIPE, stderr=subprocess.STDOUT, text=True)
+    if p.returncode != 0:
+        agg.inconclusive.append("could not build the pushr binary: " + p.stdout[-300:])
+        return
+    binp = os.path.join(tdir, "debug", "pushr")
+    compared = 0
+    for cs in cases:
+        try:
+            r = subprocess.run([binp, cs["text"]], stdout=subprocess.PIPE, stderr=subprocess.STDOUT, text=True, timeout=60)
+        except subprocess.TimeoutExpired:
+            agg.add_violation(c["prop"], "cli|does-not-terminate", "the front end did not finish a program the library finishes: %s" % cs["text"][:300])
+            continue
+        out = r.stdout
+        if r.returncode != 0 or "Done." not in out:
+            agg.add_violation(c["prop"], "cli|crash", "front end exit %d on %s : %s" % (r.returncode, cs["text"][:300], out[-300:]))
+            continue
+        blocks = out.split("> ------------ ")
+        last = [b for b in blocks if "> EXEC  :" in b][-1]
+        got = {}
+        for line in last.splitlines():
+            for k, lab in (("exec", "> EXEC  : "), ("code", "> CODE  : "), ("int", "> INT   : ")):
+                if line.startswith(lab.rstrip()) :
+                    got[k] = line[len(lab):].strip() if len(line) >= len(lab) else ""
+        compared += 1
+        agg.counts["cli_cases_compared"] = agg.counts.get("cli_cases_compared", 0) + 1
+        if got.get("exec", "") != "" or got.get("code") != cs["code"].strip() or got.get("int") != cs["int"].strip():
+            agg.add_violation(c["prop"], "cli|final-stacks-differ", "program %s : front end EXEC=%r CODE=%r INT=%r ; library CODE=%r INT=%r" % (
+                cs["text"][:300], got.get("exec"), got.get("code"), got.get("int"), cs["code"], cs["int"]))
+    c["extra"]["cli_cases_compared"] = compared
+
+
 PROPS = {
     "C01": dict(
         jobs=lambda tier: both(8, None, stall_s=40, wall_s=900 if tier == "quick" else 7200),
@@ -53,6 +180,18 @@ PROPS = {
         },
         assumptions=["EXEC.CMD replaced by a harmless stub (statement's envelope)",
                      "size-like operands above 5000 (300 for LIST.NEIGHBOR*) and heaps above 96 MiB are outside the envelope and counted, not judged"],
+    ),
+    "C02": dict(
+        jobs=lambda tier: both(6, None, stall_s=90),
+        eval_keys=["runs", "empty_exec_steps"],
+        rule="RAND-free programs: families terminating in exactly n steps for every n in L-2..L+3, diverging programs (EXEC.Y, a name bound "
+             "to itself, a million-iteration loop), programs whose single step grows the state by exactly g items for every g in cap-2..cap+3 "
+             "(list unpacking, LIST.GET of wide records), doubling programs, random programs over the RAND-free registry; eval_push_limit in "
+             "{-1,0,1,2,3,5,10,17,40,100}, growth_cap in {0,1,2,3,5,8,20,500}; run() is compared with an independent shadow accounting of step() "
+             "(outcome, number of steps from the run-loop hook, final state), the hook's event stream is checked online; TimeLimit cases use a "
+             "20 ms limit and a harness instruction that sleeps 300 ms. distinct = (family, limit, cap, needed-limit, growth-limit, outcome).",
+        floors={"all four outcomes observed": lambda a, t: set_n(a, "outcomes") >= 4, "hook events": lambda a, t: a.counts.get("hook_events", 0) >= 10000},
+        assumptions=["shadow accounting uses the same step() function (the property is about the loop around it)"],
     ),
     "C03": dict(
         jobs=lambda tier: both(6),
@@ -92,6 +231,16 @@ PROPS = {
              "iteration sequence, plus: nothing left on INDEX/INTVECTOR/CODE/EXEC; (3) random programs over the control alphabet with every "
              "step judged. distinct = (combinator, stack-depth class, fired) / (loop nesting shape, trace length).",
         floors={"18 combinators": lambda a, t: set_n(a, "instructions") >= 18, "probe events": lambda a, t: a.counts.get("probe_events_checked", 0) >= 5000},
+    ),
+    "C07": dict(
+        jobs=lambda tier: both(6),
+        eval_keys=["steps"],
+        rule="random interleavings (3..16 events) over names a,b,c of: define a value of each of the 8 types (value, NAME.QUOTE name, T.DEFINE; "
+             "EXEC.DEFINE / CODE.DEFINE forms), bare use, NAME.QUOTE (with other steps in between) then use, redefinition with another type, "
+             "CODE.DEFINITION, unquoted definition; from empty / random states with and without initial bindings and a set quote flag. After "
+             "EVERY step the whole state is compared with the reference rules and an independent environment model. "
+             "distinct = (event kind, type, bound/unbound/quoted).",
+        floors={"sequences": lambda a, t: a.counts.get("sequences", 0) >= 2000},
     ),
     "C08": dict(
         jobs=lambda tier: both(6),
@@ -160,5 +309,60 @@ PROPS = {
              "symmetry over all pairs, monotonicity, centre, order; decompose_index bijection on every hypercube up to 20000 cells; "
              "LIST.NEIGHBOR* with clamped / hostile operands. distinct = (ntotal, ndim, radius, perfect-power?).",
         floors={"4 instructions": lambda a, t: set_n(a, "instructions") >= 4},
+    ),
+    "C19": dict(
+        jobs=lambda tier: both(6),
+        eval_keys=["steps"],
+        rule="stack-id vectors of length 0..8 over the 9 valid ids plus {0,7,8,12,13,-1,MAX} with repeats, typed stacks with unique values "
+             "(some empty); LIST.ADD judged by the reference and by a conservation ledger (tagged multiset before = stacks + record after); "
+             "ADD -> (other records on top) -> GET -> execute round trip restoring every stack in order; SET/REMOVE/BVAL/IVAL/FVAL with "
+             "positions {MIN,-1,0..size+1,MAX}, n in {-1,0..5,MAX}, nested records and atoms. distinct = (op, id-pattern / position / n class).",
+        floors={"7 instructions": lambda a, t: set_n(a, "instructions") >= 7, "round trips": lambda a, t: a.counts.get("round_trips", 0) >= 500},
+    ),
+    "C11": dict(
+        jobs=lambda tier: both(6),
+        eval_keys=["round_trips"],
+        rule="random trees (depth <= 4, <= 4 items per stack) over lists (incl. empty), ints (incl. MIN/MAX), booleans, parser-producible "
+             "names, every registered instruction name, and - in a third of the cases - floats incl. non-finite, -0.0, values that round at the "
+             "third decimal; all three print paths (Item::to_string, PushStack::to_string, CODE.PRINT); plus trees from pushr's "
+             "random_code_with_size. Float-free: structural equality after parsing; always: print-parse-print fixpoint. "
+             "distinct = (floats?, depth, size class, items).",
+        floors={"round trips": lambda a, t: a.counts.get("round_trips", 0) >= 20000, "generated trees": lambda a, t: a.counts.get("generated_trees", 0) >= 1000},
+    ),
+    "C12": dict(
+        jobs=lambda tier: both(8, None, stall_s=60),
+        eval_keys=["draws"],
+        rule="random_code_with_size(n) for EVERY n in 1..80 and 235, 1034 x instruction lists {empty, one, full registry} x binding tables "
+             "{none, one, three} x new-name probability {0, 0.001, 1}, D draws each: exact size, leaf kinds and membership; first draws are also "
+             "executed (run) and print-parse-printed; random_code(m) for every m in 0..40; CODE.RAND over the int pool x 6 configured maxima; "
+             "decompose(k) for k in 1..60. distinct = parameter setting.",
+        floors={"draws": lambda a, t: a.counts.get("draws", 0) >= 20000},
+        assumptions=["pushr's generators use thread_rng and cannot be seeded: oracles are predicates over many draws, never equalities"],
+    ),
+    "C13": dict(
+        jobs=lambda tier: both(8, None, stall_s=60),
+        eval_keys=["draws"],
+        rule="grid x D draws: random_bool_vector sizes 0..12,40,100,-1,-5,MIN x 13 sparsities (grid of [0,1] plus -0.1, 1.1, NaN, +-inf); "
+             "random_int_vector 8 sizes x 10 (min,max) pairs incl. equal, reversed, extreme; random_float_vector sizes x 9 deviations "
+             "(0, negative, NaN, inf) x 5 means; INTEGER.RAND / FLOAT.RAND under 90 configured bound pairs; the RAND instructions with operands "
+             "in documented order; NAME.RANDBOUNDNAME with 0..3 bindings. Per-position reachability of TRUE bits with enough draws that "
+             "P(false alarm) <= 1e-12 per check. distinct = parameter setting.",
+        floors={"draws": lambda a, t: a.counts.get("draws", 0) >= 50000, "reachability checks": lambda a, t: a.counts.get("reachability_checks", 0) >= 20},
+        assumptions=["statistical reachability check: false-alarm probability <= 1e-12 per (size, sparsity) setting by construction of the number of draws"],
+    ),
+    "C14": dict(
+        jobs=lambda tier: both(4, None, stall_s=240, wall_s=3000),
+        pre=c14_pre,
+        post=c14_post,
+        eval_keys=["runs"],
+        rule="RAND-free programs that expose no node ids (grammar over the registry minus *.RAND, NAME.RAND*, GRAPH queries/printing) on "
+             "random states: (a) run twice in one process with unrelated runs and node creations in between, (b) every case on 2, 8, 16 "
+             "(thorough: 1..16) threads at once behind a barrier, each with its own state and instruction set, (c) per-block digests of the "
+             "debug and release builds compared, (d) node ids from Graph::add_node and GRAPH.NODE*ADD on up to 16 threads x 10^5 creations: "
+             "pairwise distinct, increasing per thread, (e) the pushr binary built from /repo vs the library on terminating programs. "
+             "thorough adds ThreadSanitizer (3 runs) and Miri (8 scheduler seeds) over (b),(d). distinct = case / thread count / id round.",
+        floors={"node ids": lambda a, t: a.counts.get("node_ids_observed", 0) >= 50000, "concurrent comparisons": lambda a, t: a.counts.get("concurrent_comparisons", 0) >= 2000,
+                "cli cases": lambda a, t: a.counts.get("cli_cases_compared", 0) >= 20},
+        assumptions=["'for all interleavings' is approached by stress, scheduler seeds and race detectors, not enumerated"],
     ),
 }
